@@ -26,6 +26,8 @@ use crate::common::*;
 
 #[path = "c03k.rs"]
 mod c03k;
+#[path = "c03g.rs"]
+mod c03g;
 
 pub const SELECTIONS: [&str; 9] =
     ["core", "all", "aliasing", "ambiguous", "capitalisation", "convention", "layout", "references", "structure"];
@@ -319,6 +321,9 @@ fn observe(w: &mut Option<Worker>, it: &Item, timeout: Duration, last_try: bool,
     match outcome {
         Outcome::Done(v) => {
             buf.lines.push(json!({"t":"hwm","mb":v["hwm_mb"].as_u64().unwrap_or(0)}));
+            if it.origin.ends_with("[reference undefined in dialect]") {
+                buf.count("grammar_sentences_aimed_at_undefined_reference", 1);
+            }
             if v["r"] == "ok" {
                 buf.direct(it.cls, true, "", "", Value::Null);
                 if v["unexp"].as_u64().unwrap_or(0) > 0 {
@@ -326,6 +331,12 @@ fn observe(w: &mut Option<Worker>, it: &Item, timeout: Duration, last_try: bool,
                 }
                 if v["parse_errs"].as_u64().unwrap_or(0) > 0 {
                     buf.count("runs_with_parse_error_violation", 1);
+                } else if it.cls == "grammar-path" || it.cls == "grammar-path-rich" {
+                    // the synthesised complete sentence is grammatical for the real parser: it did reach its target node
+                    buf.count("grammar_complete_sentences_parsed_without_error", 1);
+                }
+                if it.cls == "grammar-path" || it.cls == "grammar-path-rich" {
+                    buf.count("grammar_complete_sentences", 1);
                 }
                 if v["changed"].as_bool().unwrap_or(false) {
                     buf.count("runs_fix_changed_text", 1);
@@ -339,6 +350,13 @@ fn observe(w: &mut Option<Worker>, it: &Item, timeout: Duration, last_try: bool,
                 let key = v["key"].as_str().unwrap_or("panic@?").to_string();
                 let msg = format!("uncaught panic at {} ({}): {}", v["loc"].as_str().unwrap_or("?"), v["stage"].as_str().unwrap_or("?"), v["msg"].as_str().unwrap_or(""));
                 buf.count("uncaught_panics", 1);
+                if it.cls == "grammar-path" || it.cls == "grammar-path-rich" {
+                    buf.count("grammar_complete_sentences", 1);
+                }
+                if it.origin.ends_with("[reference undefined in dialect]") {
+                    // precision of the synthesis: a sentence aimed at a reference the dialect does not define must abort in Dialect::ref
+                    buf.count("grammar_sentences_aimed_at_undefined_reference_that_abort", 1);
+                }
                 buf.direct(it.cls, false, &key, &msg, it.input());
             }
         }
@@ -682,6 +700,31 @@ fn build_items(args: &Args, out: &mut Out) -> Vec<Item> {
         push("large", d, "all", true, format!("SELECT {} FROM t\n", (0..2500).map(|i| format!("c{}", i)).collect::<Vec<_>>().join(", ")), "wide".into());
         push("large", d, "layout", true, "select 1;\n".repeat(1900), "many".into());
     }
+    // 11. grammar-driven sentences: for every grammar node reachable from FileSegment in each dialect, a shortest
+    //     token sequence that leads the parser to it (complete / cut after the node / foreign token at the node)
+    let mut gstats = vec![];
+    for d in DIALECTS {
+        let gs = c03g::sentences(d);
+        let mut n_used = 0usize;
+        for (i, s) in gs.sentences.iter().enumerate() {
+            // every sentence in both tiers (measured: ~55k short texts add ~20 s to the quick run)
+            n_used += 1;
+            let cls = match s.variant {
+                0 => "grammar-path",
+                1 => "grammar-path-cut",
+                2 => "grammar-path-foreign",
+                _ => "grammar-path-rich",
+            };
+            // the parser decides these; rules ride along: mostly the cheap selection, all+fix for every 8th
+            let (sel, fix) = if thorough { (SELECTIONS[i % SELECTIONS.len()], i % 2 == 0) } else if i % 8 == 0 { ("all", true) } else { ("core", i % 2 == 1) };
+            let origin = if s.dangling { format!("{} [reference undefined in dialect]", s.origin) } else { s.origin.clone() };
+            push(cls, d, sel, fix, s.sql.clone(), origin);
+        }
+        gstats.push(json!({"dialect": d, "grammar_nodes": gs.n_nodes, "reachable": gs.n_reachable, "targets": gs.n_targets, "targets_without_sentence": gs.n_no_sentence,
+                           "leaves_without_sample_token": gs.n_leaf_no_sample, "reference_sites_undefined_in_dialect": gs.n_dangling_sites,
+                           "sentences": gs.sentences.len(), "sentences_run": n_used, "reference_sites_targeted": gs.n_ref_sites}));
+    }
+    out.stat(json!({"grammar_sentences": gstats}));
     items
 }
 
@@ -692,6 +735,25 @@ pub fn main(args: &Args) {
         return;
     }
     silence_panics();
+    if let Some(d) = args.flag("--grammar-sentences") {
+        // inspection aid: print the synthesised sentences of one dialect
+        let gs = c03g::sentences(&d);
+        let linter = mk_linter(&d, "core");
+        for s in &gs.sentences {
+            // first column: does the real parser accept the text ('ok'), report it unparsable ('unparsable'), or abort ('PANIC')
+            let st = match catch(|| linter.lint_string(&s.sql, None, false).violations.iter().filter(|v| v.rule.is_none()).count()) {
+                Ok(0) => "ok",
+                Ok(_) => "unparsable",
+                Err(_) => "PANIC",
+            };
+            print!("{}\t{}\t{}", st, s.origin, s.sql);
+        }
+        eprintln!(
+            "{}: nodes {} reachable {} targets {} (no sentence {}, leaves without sample {}, dangling sites {}) sentences {}",
+            gs.dialect, gs.n_nodes, gs.n_reachable, gs.n_targets, gs.n_no_sentence, gs.n_leaf_no_sample, gs.n_dangling_sites, gs.sentences.len()
+        );
+        return;
+    }
     let mut out = Out::new(&args.out);
     let timeout = Duration::from_secs(std::env::var("SQV_C03_TIMEOUT").ok().and_then(|s| s.parse().ok()).unwrap_or(60));
 
